@@ -77,6 +77,7 @@ type thread struct {
 	joiners int
 	lastRun int
 	endStep int // step count when the thread finished (0: did not finish)
+	frozen  bool // descheduled by a freeze deviation until nothing else can run
 }
 
 // Obj is the identity of a synchronisation object inside one execution.
@@ -152,6 +153,9 @@ type Exec struct {
 	objList    []*Obj
 	quiet      bool // a spin cycle (or true quiescence) lets Quiesce() proceed
 	nondet     string
+	freezeOn   bool // offer the freeze deviation at scheduling points
+	nfrozen    int
+	frozeAt    int // step of the oldest outstanding freeze
 }
 
 // cur execution (exactly one managed thread runs at a time, so a global is the
@@ -244,6 +248,12 @@ func (x *Exec) reschedule(t *thread) {
 	}
 	for {
 		opts := x.options(t)
+		if x.nfrozen > 0 && (len(opts) == 0 || x.steps-x.frozeAt > freezeHorizon) {
+			// nothing else can run (or the others have had freezeHorizon steps):
+			// the descheduled threads come back; timers never beat computation.
+			x.unfreeze()
+			continue
+		}
 		if len(opts) == 0 {
 			if x.fireTimer() {
 				continue
@@ -260,13 +270,38 @@ func (x *Exec) reschedule(t *thread) {
 		selfFirst := opts[0] == t
 		idx := 0
 		if len(opts) > 1 {
-			idx = x.choose(len(opts), selfFirst || !x.freeForced, false)
+			n := len(opts)
+			if x.freezeOn {
+				// one more alternative: deschedule the default thread until
+				// nothing else can run, and continue with the next one.
+				idx = x.choose(n+1, selfFirst || !x.freeForced, false)
+				if idx == n {
+					if x.nfrozen == 0 {
+						x.frozeAt = x.steps
+						x.sigSeen, x.sigStep = nil, nil
+					}
+					opts[0].frozen = true
+					x.nfrozen++
+					if x.tracing {
+						x.trace = append(x.trace, fmt.Sprintf("-- freeze %d:%s (descheduled until nothing else can run)", opts[0].id, opts[0].name))
+					}
+					idx = 1
+					selfFirst = false
+				}
+			} else {
+				idx = x.choose(n, selfFirst || !x.freeForced, false)
+			}
 			x.contended = true
 		}
 		next := opts[idx]
 		if !selfFirst {
 			x.forced++
-			if !x.spinOff && x.spinCheck() {
+			if (!x.spinOff || x.nfrozen > 0) && x.spinCheck() {
+				if x.nfrozen > 0 {
+					// the unfrozen threads only spin: they wait for a frozen one
+					x.unfreeze()
+					continue
+				}
 				if q := x.quiescer(); q != nil {
 					// the other threads only spin: this is quiescence for the harness
 					x.quiet = true
@@ -292,17 +327,30 @@ func (x *Exec) reschedule(t *thread) {
 	}
 }
 
+// freezeHorizon bounds how long (in visible steps of the other threads) a
+// frozen thread stays descheduled; deterministic, so replays agree.
+const freezeHorizon = 3000
+
+func (x *Exec) unfreeze() {
+	for _, o := range x.threads {
+		o.frozen = false
+	}
+	x.nfrozen = 0
+	x.sigSeen, x.sigStep = nil, nil
+}
+
 // options returns the enabled threads in canonical order: the running thread
 // first if it is still enabled, then the others in cyclic id order after it.
+// Frozen threads are left out.
 func (x *Exec) options(t *thread) []*thread {
 	var opts []*thread
-	if t.enabled() {
+	if t.enabled() && !t.frozen {
 		opts = append(opts, t)
 	}
 	n := len(x.threads)
 	for i := 1; i <= n; i++ {
 		o := x.threads[(t.id+i)%n]
-		if o != t && o.enabled() {
+		if o != t && !o.frozen && o.enabled() {
 			opts = append(opts, o)
 		}
 	}
@@ -322,6 +370,9 @@ func (x *Exec) choose(n int, preempt, sel bool) int {
 		}
 	}
 	x.points = append(x.points, pointRec{n: n, chosen: c, preempt: preempt, sel: sel, sig: x.hash})
+	if x.tracing {
+		x.trace = append(x.trace, fmt.Sprintf("-- choice point %d: %d options, took %d", i, n, c))
+	}
 	return c
 }
 
